@@ -1022,6 +1022,10 @@ class TypeAnnotator:
         if kind and kind.is_type(exp.DType.UNKNOWN):
             return None
 
+        if kind and kind.parent:
+            # e.g. the type of a cast is its attached `to` node, which must stay where it is
+            kind = kind.copy()
+
         if this:
             return exp.ColumnDef(this=this, kind=kind)
 
